@@ -370,6 +370,24 @@ class G:
         a, b = self.r.choice([("3", "1"), ("2", "5"), ("0", "4")])
         return [f"CfgA.k = {a}", "for i in seq(0, n):", "    if i < CfgA.k:", f"        y[i] = x[i] * {self.const()}", f"CfgA.k = {b}"]
 
+    def m_cfg_cond(self):
+        """write - conditional overwrite - read of a config field: the read is shadowed only
+        on the path that takes the branch."""
+        r = self.r
+        self.use("x", "y", "flag")
+        a, b = r.choice([("1", "3"), ("4", "0"), ("2", "5")])
+        cond = r.choice(["flag", "n > 2", "m < n"])
+        first = r.choice([[f"CfgA.k = {a}"], [f"CfgA.k = {a}"], []])
+        mid = [f"if {cond}:", f"    CfgA.k = {b}"]
+        if r.random() < 0.3:
+            mid += ["else:", "    pass"]
+        use = r.choice([
+            ["for i in seq(0, n):", "    if i < CfgA.k:", f"        y[i] = x[i] * {self.const()}"],
+            ["if CfgA.k < n:", "    y[0] = x[0]"],
+        ])
+        tail = r.choice([[], [f"CfgA.k = {a}"]])
+        return first + mid + use + tail
+
     def m_cfg_callee(self):
         """config written in a callee and read afterwards in the caller."""
         self.use("x", "y", "s")
@@ -503,6 +521,7 @@ class G:
         "bcast": ["fission", "autofission", "lift_alloc", "sink_alloc", "autolift_alloc", "reorder_loops", "inline_assign", "expand_dim", "bind_expr", "lift_scope"],
         "config": ["bind_config", "write_config", "delete_config", "reorder_stmts", "fission", "inline", "call_eqv", "fuse"],
         "cfg_rwo": ["delete_config", "write_config", "reorder_stmts", "bind_config", "fission", "lift_scope"],
+        "cfg_cond": ["delete_config", "write_config", "bind_config", "reorder_stmts", "lift_scope", "eliminate_dead_code", "specialize"],
         "cfg_callee": ["inline", "call_eqv", "delete_config", "write_config", "reorder_stmts", "bind_config"],
     }
 
@@ -513,25 +532,26 @@ class G:
     GENERIC_MOTIFS = ["elementwise", "nest2d", "temp", "guard", "temp2d", "accum"]
 
     @classmethod
-    def strata(cls, with_cfg=False):
+    def strata(cls, with_cfg=False, generic=True):
         """(motif, primitive) pairs for stratified sessions."""
-        cfg_m = ("config", "cfg_rwo", "cfg_callee")
+        cfg_m = ("config", "cfg_rwo", "cfg_callee", "cfg_cond")
         out = set()
         for m, ops in cls.AFFINITY.items():
             if m in cfg_m and not with_cfg:
                 continue
             for o in ops:
                 out.add((m, o))
-        for o in cls.GENERIC_OPS:
-            for m in cls.GENERIC_MOTIFS:
-                out.add((m, o))
+        if generic:
+            for o in cls.GENERIC_OPS:
+                for m in cls.GENERIC_MOTIFS:
+                    out.add((m, o))
         return sorted(out)
 
     def program(self, name="p"):
         r = self.r
         motifs = list(self.MOTIFS)
         if self.want_cfg:
-            motifs += ["config", "config", "config", "cfg_rwo", "cfg_rwo", "cfg_callee", "cfg_callee"]
+            motifs += ["config", "config", "config", "cfg_rwo", "cfg_rwo", "cfg_callee", "cfg_callee", "cfg_cond", "cfg_cond"]
         if not self.want_calls:
             motifs.remove("call")
         if self.cfg.get("no_instr"):
